@@ -105,6 +105,29 @@ def run_case(case):
                 same = om[0] == ob[0] and (om[1] == ob[1] if om[0] == "raise" else all(eq_val(a, b) for a, b in zip(om[1], ob[1])))
                 if not same:
                     viol.append({"kind": "new-frame-differs", "what": f"class {ci!r}: on a new frame {name} -> {om} but BinaryCarver -> {ob}"})
+    # re-transforming an already transformed frame, and a frame with repeated index labels (two stacked batches)
+    if kept and not viol:
+        try:
+            again = M.transform(out.copy())
+            for ci in kept:
+                if not all(eq_val(a, b) for a, b in zip(again[f"f_{ci}"].tolist(), out[f"f_{ci}"].tolist())):
+                    viol.append({"kind": "retransform-differs", "what": f"class {ci!r}: transforming the already transformed frame changes f_{ci}"})
+                    break
+        except Exception as exc:  # noqa
+            viol.append({"kind": "retransform-raises", "what": f"transform of an already transformed frame raised {type(exc).__name__}: {str(exc)[:100]}"})
+        try:
+            Xdup = pd.concat([X, X.iloc[:3]])
+            od = M.transform(Xdup.copy())
+            if len(od) != len(Xdup):
+                viol.append({"kind": "dup-index-rows", "what": f"{len(od)} rows returned for a frame of {len(Xdup)} rows with repeated index labels"})
+            else:
+                for ci in kept:
+                    exp = out[f"f_{ci}"].tolist() + out[f"f_{ci}"].tolist()[:3]
+                    if not all(eq_val(a, b) for a, b in zip(od[f"f_{ci}"].tolist(), exp)):
+                        viol.append({"kind": "dup-index-differs", "what": f"class {ci!r}: f_{ci} differs on a frame with repeated index labels"})
+                        break
+        except Exception as exc:  # noqa
+            viol.append({"kind": "dup-index-raises", "what": f"transform of a frame with repeated index labels raised {type(exc).__name__}: {str(exc)[:100]}"})
     extra = [f for f in M.features if f not in [f"f_{c}" for c in classes[1:]]]
     if extra:
         viol.append({"kind": "unexpected-features", "what": f"features {extra} do not correspond to a class c1..ck of {classes}"})
